@@ -140,3 +140,18 @@ func VerifLocalSnapshot(svc Service) VerifLocal {
 
 // VerifPool returns the service's private stream pool.
 func VerifPool(svc Service) streampool.StreamPool { return svc.(*service).pool }
+
+// VerifSetPool replaces the service's private stream pool by a harness-side wrapper (which must
+// delegate to the pool returned by VerifPool), so that the pool calls made by the handlers
+// (AddTagsCtx, RemoveTagsCtx, RemoveTagsById) become schedule points.
+func VerifSetPool(svc Service, p streampool.StreamPool) { svc.(*service).pool = p }
+
+// VerifRemoteLocked reports whether remoteMu is held right now (by anybody).
+func VerifRemoteLocked(svc Service) bool {
+	s := svc.(*service)
+	if s.remoteMu.TryLock() {
+		s.remoteMu.Unlock()
+		return false
+	}
+	return true
+}
